@@ -355,6 +355,7 @@ func (ex *Exec) applyHavocAt(st *State, writes []writeRec, headTop Term) {
 		all     bool
 		unknown bool
 		refs    map[string]Term
+		bases   map[string]Term
 		kind    LocKind
 		sort    string
 	}
@@ -363,7 +364,7 @@ func (ex *Exec) applyHavocAt(st *State, writes []writeRec, headTop Term) {
 	for _, w := range writes {
 		a := m[w.heap]
 		if a == nil {
-			a = &agg{refs: map[string]Term{}, kind: w.kind, sort: w.sort}
+			a = &agg{refs: map[string]Term{}, bases: map[string]Term{}, kind: w.kind, sort: w.sort}
 			m[w.heap] = a
 			order = append(order, w.heap)
 		}
@@ -372,6 +373,8 @@ func (ex *Exec) applyHavocAt(st *State, writes []writeRec, headTop Term) {
 			if !w.fresh {
 				a.unknown = true
 			}
+		} else if w.kind == LBase {
+			a.bases[w.ref.S] = w.ref
 		} else {
 			a.refs[w.ref.S] = w.ref
 		}
@@ -395,6 +398,22 @@ func (ex *Exec) applyHavocAt(st *State, writes []writeRec, headTop Term) {
 				st.Assume(Term{fmt.Sprintf("(forall ((r Int)) (! (=> (and %s) (= (select %s r) (select %s r))) :pattern ((select %s r))))",
 					strings.Join(conds, " "), nh.S, cur.S, nh.S), SBool})
 			}
+			st.Heaps[name] = nh
+			continue
+		}
+		if len(a.bases) > 0 {
+			// all elements of some backing arrays are written: everything whose base object is none of them (and that
+			// is not one of the precisely known locations) keeps its value
+			nh := ex.freshHeapVal(st, name, "hv:"+shortName(name), a.sort)
+			var conds []string
+			for _, b := range a.bases {
+				conds = append(conds, fmt.Sprintf("(not (= (subbase r) %s))", b.S))
+			}
+			for _, r := range a.refs {
+				conds = append(conds, fmt.Sprintf("(not (= r %s))", r.S))
+			}
+			st.Assume(Term{fmt.Sprintf("(forall ((r Int)) (! (=> (and %s) (= (select %s r) (select %s r))) :pattern ((select %s r))))",
+				strings.Join(conds, " "), nh.S, cur.S, nh.S), SBool})
 			st.Heaps[name] = nh
 			continue
 		}
